@@ -14,6 +14,7 @@ import (
 
 	"github.com/slackhq/nebula"
 	"github.com/slackhq/nebula/cert"
+	"github.com/slackhq/nebula/test"
 	"verifharness/hlib"
 )
 
@@ -28,19 +29,20 @@ func gen(r *hlib.Rand, n int, tier, profile string, emit func(string, ...any)) {
 	for total < n {
 		timeout := hlib.Pick(r, 10, 30, 60, 600)
 		my := hlib.Pick(r, 1, 5, 9)
-		emit("reset %d %d %d %d", hlib.Pick(r, 1, 1, 0), timeout, r.Intn(2), my)
-		gens := 1
-		if r.Chance(3, 4) {
-			emit("mycert 1 %d", hlib.Pick(r, 1, 1, 1, 2))
-		} else {
-			emit("mycert 0 1")
-			gens = 0
+		count := 0
+		e := func(f string, a ...any) { emit(f, a...); count++ }
+		e("reset %d %d %d %d", hlib.Pick(r, 1, 1, 0), timeout, r.Intn(2), my)
+		g1, g2 := 1, 0
+		switch r.Intn(6) {
+		case 0:
+			g1 = 0
+		case 1, 2:
+			g2 = 1
 		}
-		total += 2
+		e("mycert %d %d %d", g1, g2, hlib.Pick(r, 1, 1, 1, 2))
 		var idx []int // local indexes in use (approximately)
 		checks := map[int]int{}
 		checked := func(i int) int {
-			// a tunnel rarely survives more than a few checks: forget its index so that later checks hit live ones
 			checks[i]++
 			if checks[i] >= 3 {
 				for k, v := range idx {
@@ -52,34 +54,101 @@ func gen(r *hlib.Rand, n int, tier, profile string, emit func(string, ...any)) {
 			}
 			return i
 		}
-		tunnels := 0
+		tunnels := 0 // ids handed out so far (tunnels and pending handshakes), as far as the generator can tell
 		nextIdx := 1
-		add := func() {
-			a := hlib.Pick(r, 2, 3, 7, 8)
-			kind := hlib.Pick(r, 1, 2, 2, 2)
-			exp := hlib.Pick(r, 0, 5, 20, 60, 100000)
-			g := gens
-			if r.Chance(1, 4) {
-				g = r.Intn(3)
-			}
-			emit("add %d %d %d %d %d %d", a, nextIdx, 100+nextIdx, kind, exp, g)
+		relayIdx := 5000
+		stream := func() string { relayIdx++; return fmt.Sprint(relayIdx) }
+		addTo := func(a, kind, exp, g, ver, pv int) int {
+			e("add %d %d %d %d %d %d %d %d", a, nextIdx, 100+nextIdx, kind, exp, g, ver, pv)
 			idx = append(idx, nextIdx)
 			nextIdx++
 			tunnels++
+			return nextIdx - 1
 		}
-		k := r.Range(15, 70)
-		add()
-		total++
-		if r.Chance(1, 3) {
-			// rekey boundary on the very first tunnel (its id is 1): inbound traffic on the primary with the counter around
-			// the rehandshake threshold
-			emit("counter 1 %d", hlib.Pick(r, rehandshakeAfter-1, rehandshakeAfter, rehandshakeAfter, rehandshakeAfter+1))
-			emit("in 1")
-			emit("tick 1")
-			total += 3
+		add := func() int {
+			a := hlib.Pick(r, 2, 3, 7, 8)
+			ver := hlib.Pick(r, 1, 1, 1, 2)
+			g := g1
+			if ver == 2 {
+				g = g2
+			}
+			if r.Chance(1, 4) {
+				g = r.Intn(3)
+			}
+			return addTo(a, 2, hlib.Pick(r, 0, 5, 20, 60, 100000), g, ver, hlib.Pick(r, 1, 1, 2))
 		}
-		for i := 0; i < k && total < n; i++ {
-			total++
+		tick := func(li int) { e("tick %d %s", checked(li), stream()) }
+
+		// scripted openings on predictable ids (the first tunnels of a case)
+		switch hlib.Pick(r, 0, 0, 1, 1, 2, 2, 2, 3, 3, 4, 9, 9) {
+		case 0:
+			// rekey boundary on the first tunnel, plain or with a peer on a higher certificate version that we cannot match
+			li := addTo(hlib.Pick(r, 2, 7), 2, 100000, g1, 1, hlib.Pick(r, 1, 2))
+			e("counter 1 %d", hlib.Pick(r, rehandshakeAfter-1, rehandshakeAfter, rehandshakeAfter, rehandshakeAfter+1))
+			e("in 1")
+			tick(li)
+		case 1:
+			// mixed versions: v1 tunnel to a v2 peer; then the local certificate is reloaded (or removed, or a v2 one appears)
+			li := addTo(hlib.Pick(r, 2, 7), 2, 100000, g1, 1, 2)
+			e("in 1")
+			tick(li)
+			switch r.Intn(3) {
+			case 0:
+				g1 = 2
+			case 1:
+				g2 = 1 - g2
+			case 2:
+				g1 = 0
+			}
+			e("mycert %d %d %d", g1, g2, 1)
+			e("in 1")
+			tick(li)
+		case 2:
+			// two tunnels to one peer, inbound traffic on the older one: swap or relay migration
+			a := hlib.Pick(r, 2, 3, 7, 8)
+			l1 := addTo(a, 2, 100000, hlib.Pick(r, g1, g1, 2), 1, 1)
+			addTo(a, 2, 100000, hlib.Pick(r, g1, g1, 2), 1, 1)
+			if r.Bool() {
+				e("relay 1 %d %d %d %s", hlib.Pick(r, 20, 21), hlib.Pick(r, 1, 2), hlib.Pick(r, 0, 2), stream())
+				if r.Chance(3, 4) {
+					e("used %d", relayIdx)
+				}
+				if r.Chance(1, 3) {
+					e("relay 2 20 %d %d %s", hlib.Pick(r, 1, 2), hlib.Pick(r, 0, 2), stream())
+				}
+			}
+			if r.Chance(1, 4) {
+				e("counter 1 %d", hlib.Pick(r, rehandshakeAfter-1, rehandshakeAfter))
+			}
+			e("in 1")
+			tick(l1)
+		case 3:
+			// idle primary: one check with traffic (lastUsed is set), then silence around the inactivity timeout
+			li := addTo(hlib.Pick(r, 2, 7), 2, 100000, g1, 1, 1)
+			e("in 1")
+			tick(li)
+			e("sleep %d", hlib.Pick(r, timeout-1, timeout, timeout, timeout+1, 2*timeout))
+			if r.Chance(1, 5) {
+				e("out 1")
+			}
+			tick(li)
+		case 4:
+			// a tunnel without ConnectionState (alone on its address)
+			li := addTo(9, 0, 0, 0, 1, 1)
+			if r.Bool() {
+				e("counter 1 %d", rejectAfter)
+			}
+			tick(li)
+			if r.Bool() {
+				e("out 1")
+			}
+			tick(li)
+			tick(li)
+		default:
+			add()
+		}
+		k := r.Range(10, 60)
+		for i := 0; i < k && total+count < n; i++ {
 			pickIdx := func() int {
 				if len(idx) == 0 {
 					add()
@@ -102,34 +171,46 @@ func gen(r *hlib.Rand, n int, tier, profile string, emit func(string, ...any)) {
 			case c < 12:
 				add()
 			case c < 21:
-				emit("in %d", pickTun())
+				e("in %d", pickTun())
 			case c < 28:
-				emit("out %d", pickTun())
+				e("out %d", pickTun())
 			case c < 32:
-				emit("counter %d %d", pickTun(), hlib.Pick(r, uint64(0), 7, rehandshakeAfter-1, rehandshakeAfter, rehandshakeAfter+1,
+				e("counter %d %d", pickTun(), hlib.Pick(r, uint64(0), 7, rehandshakeAfter-1, rehandshakeAfter, rehandshakeAfter+1,
 					rejectAfter-1, rejectAfter, rejectAfter+1, ^uint64(0)))
 			case c < 34:
-				emit("block %d", pickTun())
+				e("block %d", pickTun())
 			case c < 43:
-				emit("sleep %d", hlib.Pick(r, 1, 4, 5, 6, 9, 10, 11, timeout-1, timeout, timeout+1, 2*timeout, 19, 20, 21, 59, 60, 61))
+				e("sleep %d", hlib.Pick(r, 1, 4, 5, 6, 9, 10, 11, timeout-1, timeout, timeout+1, 2*timeout, 19, 20, 21, 59, 60, 61))
 			case c < 45:
-				emit("cfg %d %d %d", r.Intn(2), hlib.Pick(r, timeout, timeout, 10, 30), r.Intn(2))
+				e("cfg %d %d %d", r.Intn(2), hlib.Pick(r, timeout, timeout, 10, 30), r.Intn(2))
 			case c < 48:
-				gens = r.Intn(3)
-				emit("mycert %d %d", gens, hlib.Pick(r, 1, 1, 1, 2))
-			case c < 64:
-				emit("decide %d", checked(pickIdx()))
+				g1, g2 = r.Intn(3), r.Intn(2)
+				e("mycert %d %d %d", g1, g2, hlib.Pick(r, 1, 1, 1, 2))
+			case c < 52:
+				e("relay %d %d %d %d %s", pickTun(), hlib.Pick(r, 20, 21, 22), hlib.Pick(r, 1, 2), hlib.Pick(r, 0, 1, 2), stream())
+				if r.Chance(1, 2) {
+					e("used %d", relayIdx)
+				}
+			case c < 66:
+				e("decide %d", checked(pickIdx()))
 			default:
-				emit("tick %d", checked(pickIdx()))
+				tick(pickIdx())
 			}
 		}
+		total += count
 	}
 }
 
 // ---------------------------------------------------------------------------------------------
 // executor
 
+type tunInfo struct {
+	hasCS, hasCert bool
+	addr           int
+}
+
 type world struct {
+	info    map[int]tunInfo
 	v       *nebula.VerifConnMgr
 	pool    *cert.CAPool
 	caCert  cert.Certificate
@@ -157,7 +238,7 @@ func newWorld(my int) *world {
 		panic(err)
 	}
 	return &world{v: nebula.VerifConnMgrNew(addrOf(my), pool), pool: pool, caCert: ca, caKey: priv,
-		objs: []*nebula.HostInfo{nil}, certs: []*cert.CachedCertificate{nil}, oid: map[*nebula.HostInfo]int{}, pending: map[netip.Addr]bool{}}
+		objs: []*nebula.HostInfo{nil}, certs: []*cert.CachedCertificate{nil}, oid: map[*nebula.HostInfo]int{}, pending: map[netip.Addr]bool{}, info: map[int]tunInfo{}}
 }
 
 func (w *world) name(h *nebula.HostInfo) string {
@@ -228,16 +309,99 @@ func (w *world) dump() string {
 	for _, a := range ps {
 		vs = append(vs, fmt.Sprintf(" %d", a))
 	}
-	return "H" + strings.Join(hs, "") + "|I" + strings.Join(is, "") + "|V" + strings.Join(vs, "") + "|F" + strings.Join(fs, "")
+	var ls, qs, us []string
+	relays := w.v.VerifRelays()
+	var rk []int
+	for i := range relays {
+		rk = append(rk, int(i))
+	}
+	sort.Ints(rk)
+	for _, i := range rk {
+		ls = append(ls, fmt.Sprintf(" %d:%s", i, w.name(relays[uint32(i)])))
+	}
+	for _, id := range ids {
+		_, byAddr, _ := nebula.VerifHostmapRelayState(w.objs[id])
+		if len(byAddr) == 0 {
+			continue
+		}
+		var peers []int
+		for a := range byAddr {
+			peers = append(peers, numOf(a))
+		}
+		sort.Ints(peers)
+		var items []string
+		for _, a := range peers {
+			r := byAddr[addrOf(a)]
+			items = append(items, fmt.Sprintf("%d/%d/%d", a, r.Type, r.State))
+		}
+		qs = append(qs, fmt.Sprintf(" %d:%s", id, strings.Join(items, ",")))
+	}
+	var uk []int
+	for _, i := range w.v.VerifRelayUsed() {
+		uk = append(uk, int(i))
+	}
+	sort.Ints(uk)
+	for _, i := range uk {
+		us = append(us, fmt.Sprintf(" %d", i))
+	}
+	return "H" + strings.Join(hs, "") + "|I" + strings.Join(is, "") + "|V" + strings.Join(vs, "") + "|F" + strings.Join(fs, "") +
+		"|L" + strings.Join(ls, "") + "|Q" + strings.Join(qs, "") + "|U" + strings.Join(us, "")
+}
+
+// stream is the stand-in for crypto/rand.Reader during AddRelay: the big-endian bytes of the op's values, cyclically.
+type stream struct {
+	b   []byte
+	pos int
+}
+
+func (s *stream) Read(p []byte) (int, error) {
+	for i := range p {
+		p[i] = s.b[s.pos%len(s.b)]
+		s.pos++
+	}
+	return len(p), nil
+}
+
+func parseStream(t string) (*stream, bool) {
+	var b []byte
+	nz := false
+	for _, f := range strings.Split(t, ",") {
+		v := hlib.Atou(f)
+		if v >= 1<<32 {
+			return nil, false
+		}
+		if v != 0 {
+			nz = true
+		}
+		b = append(b, byte(v>>24), byte(v>>16), byte(v>>8), byte(v))
+	}
+	if !nz {
+		return nil, false
+	}
+	return &stream{b: b}, true
 }
 
 func newExec(t *testing.T) func([]string) string {
 	var w *world
-	localCert := func(g int) cert.Certificate {
+	localCert := func(ver, g int) cert.Certificate {
 		if g == 0 {
 			return nil
 		}
-		return nebula.VerifLocalCert(1, []byte{byte(g)})
+		return nebula.VerifLocalCert(ver, []byte{byte(g)})
+	}
+	orig := rand.Reader
+	t.Cleanup(func() { rand.Reader = orig })
+	withStream := func(tok string, f func() string) string {
+		if tok == "-" {
+			return f()
+		}
+		rd, ok := parseStream(tok)
+		if !ok {
+			return "bad-op"
+		}
+		rand.Reader = rd
+		defer func() { rand.Reader = orig }()
+		return f()
 	}
 	return func(a []string) string {
 		if a[0] == "reset" {
@@ -256,22 +420,39 @@ func newExec(t *testing.T) func([]string) string {
 			w.v.VerifSetConfig(a[1] != "0", time.Duration(hlib.Atoi(a[2]))*time.Second, a[3] != "0")
 			return "ok"
 		case "mycert":
-			w.v.VerifSetCertState(localCert(hlib.Atoi(a[1])), nil, hlib.Atoi(a[2]))
+			if len(a) != 4 {
+				return "bad-op"
+			}
+			w.v.VerifSetCertState(localCert(1, hlib.Atoi(a[1])), localCert(2, hlib.Atoi(a[2])), hlib.Atoi(a[3]))
 			return "ok"
 		case "add":
-			if len(a) != 7 {
+			if len(a) != 9 {
 				return "bad-op"
 			}
 			li := uint32(hlib.Atou(a[2]))
 			if li == 0 || w.v.Main.QueryIndex(li) != nil {
 				return "bad-op"
 			}
+			kind, ver, pv := hlib.Atoi(a[4]), hlib.Atoi(a[7]), hlib.Atoi(a[8])
+			if !(kind == 0 || kind == 2) || !(ver == 1 || ver == 2) || !(pv == 1 || pv == 2) {
+				return "bad-op"
+			}
 			addr := addrOf(hlib.Atoi(a[1]))
+			// tunnels without a peer certificate live alone on their address (see the driver)
+			lists, _, _ := w.v.VerifConnMgrDump()
+			for _, x := range lists[addr] {
+				if !w.info[w.oid[x]].hasCert {
+					return "bad-op"
+				}
+			}
+			if kind != 2 && len(lists[addr]) > 0 {
+				return "bad-op"
+			}
 			now := time.Now()
 			var cached *cert.CachedCertificate
 			if a[4] == "2" {
 				pub, _, _ := ed25519.GenerateKey(rand.Reader)
-				tbs := &cert.TBSCertificate{Version: cert.Version1, Name: fmt.Sprintf("h%d", len(w.objs)), Networks: []netip.Prefix{netip.PrefixFrom(addr, 24)},
+				tbs := &cert.TBSCertificate{Version: cert.Version(pv), Name: fmt.Sprintf("h%d", len(w.objs)), Networks: []netip.Prefix{netip.PrefixFrom(addr, 24)},
 					NotBefore: now.Add(-time.Second), NotAfter: now.Add(time.Duration(hlib.Atoi(a[5])) * time.Second), PublicKey: pub, Curve: cert.Curve_CURVE25519}
 				c, err := tbs.Sign(w.caCert, cert.Curve_CURVE25519, w.caKey)
 				if err != nil {
@@ -284,13 +465,55 @@ func newExec(t *testing.T) func([]string) string {
 			}
 			// a tunnel always carries the local certificate it was built with; generation 0 stands for one that has
 			// since been replaced by something else entirely
-			my := nebula.VerifLocalCert(1, []byte{byte(hlib.Atoi(a[6]))})
-			h := w.v.VerifAddTunnel(addr, li, uint32(hlib.Atou(a[3])), my, cached, true)
+			my := nebula.VerifLocalCert(ver, []byte{byte(hlib.Atoi(a[6]))})
+			h := w.v.VerifAddTunnel(addr, li, uint32(hlib.Atou(a[3])), my, cached, kind != 0)
+			w.info[len(w.objs)] = tunInfo{hasCS: kind != 0, hasCert: kind == 2, addr: hlib.Atoi(a[1])}
 			w.objs = append(w.objs, h)
 			w.certs = append(w.certs, cached)
 			w.oid[h] = len(w.objs) - 1
 			return fmt.Sprintf("new %d;%s", len(w.objs)-1, w.dump())
+		case "relay":
+			if len(a) != 6 {
+				return "bad-op"
+			}
+			h := w.tun(a[1])
+			ty := hlib.Atoi(a[3])
+			if h == nil || !(ty == 1 || ty == 2) {
+				return "bad-op"
+			}
+			return withStream(a[5], func() string {
+				idx, err := nebula.AddRelay(test.NewLogger(), h, w.v.Main, addrOf(hlib.Atoi(a[2])), nil, ty, hlib.Atoi(a[4]))
+				res := ""
+				switch {
+				case err == nil:
+					res = fmt.Sprintf("idx %d", idx)
+				case strings.Contains(err.Error(), "no longer in the hostmap"):
+					res = "err:unlinked"
+				case strings.Contains(err.Error(), "failed to generate unique"):
+					res = "err:exhausted"
+				default:
+					res = "err:rand"
+				}
+				return res + ";" + w.dump()
+			})
+		case "used":
+			i := uint32(hlib.Atou(a[1]))
+			if owner := w.v.VerifRelays()[i]; owner != nil {
+				_, _, byIdx := nebula.VerifHostmapRelayState(owner)
+				for _, j := range w.v.VerifRelayUsed() {
+					if _, mine := byIdx[j]; mine && j != i {
+						return "bad-op"
+					}
+				}
+			}
+			w.v.VerifMarkRelayUsed(i)
+			return "ok"
 		case "in", "out", "block":
+			if a[0] == "in" {
+				if inf, ok := w.info[hlib.Atoi(a[1])]; ok && !inf.hasCS {
+					return "bad-op"
+				}
+			}
 			h := w.tun(a[1])
 			if h != nil {
 				switch a[0] {
@@ -323,8 +546,13 @@ func newExec(t *testing.T) func([]string) string {
 			}
 			return fmt.Sprintf("d=%d h=%s p=%s f=%s", d, w.name(h), w.name(p), f)
 		case "tick":
-			w.v.VerifDoTrafficCheck(uint32(hlib.Atou(a[1])), time.Now())
-			return w.dump()
+			if len(a) != 3 {
+				return "bad-op"
+			}
+			return withStream(a[2], func() string {
+				w.v.VerifDoTrafficCheck(uint32(hlib.Atou(a[1])), time.Now())
+				return w.dump()
+			})
 		}
 		return "bad-op"
 	}
